@@ -160,7 +160,7 @@ class C10(Prop):
     assumptions = ['the pyenv CPython interpreters are the reference; a missing interpreter is recorded as not explored',
                    'form feed in the indentation of a logical line is a listed finding (F-C10-1) and excluded by construction',
                    'f-strings that only the PEP 701 tokenizer accepts as one token (own quote reused in a field, line break in a single-quoted f-string) are a listed finding (F-C10-2): counted, signature-matched']
-    budgets = {'quick': 16000, 'thorough': 300000}
+    budgets = {'quick': 16000, 'thorough': 1200000}
     min_nontrivial_fraction = 0.05
 
     def setup_shard(self, tier, seed, shard):
